@@ -121,7 +121,7 @@ def subbasins_pfafstetter(
     strord = np.where(strord <= depth + 1, strord, 0).astype(strord.dtype)
     idxs_trib = _tributaries(idxs_ds, seq, strord)
     # initiate map with pfaf id at river branch based on classic stream order map
-    pfaf_branch = np.zeros(idxs_ds.size, np.int32)
+    pfaf_branch = np.zeros(idxs_ds.size, np.int64)
     idxs = []
     # keep basin label; depth; outlet index
     labs = [(int(0), int(0)) for _ in range(0)]  # set dtypes
